@@ -50,6 +50,7 @@ type history struct {
 	// bookkeeping
 	closedAddrs map[string]bool
 	aborted     string
+	violated    bool
 	estOrder    []string
 }
 
@@ -84,6 +85,22 @@ func (h *history) abort(why string) {
 	if h.aborted == "" {
 		h.aborted = why
 	}
+}
+
+// connFailed is called when a request on c failed: if net/http reported a panic of the handler that served
+// the connection, and the fan-out is on its stack, that is a violation; anything else makes the history inconclusive.
+func (h *history) connFailed(c *mconn, what string, err error) {
+	if p := httpPanicFor(c.local); p != nil {
+		if sig, in := notifySig(p.Text + "\n" + p.Stack); in {
+			h.r.Violation(sig, notifyPanicWhat, h.witness(map[string]interface{}{"where": fmt.Sprintf("%s on connection c%d: %v", what, c.Slot, err), "stack": trunc(p.Text+"\n"+p.Stack, 2500)}))
+			h.violated = true
+			h.abort("panic in the fan-out")
+			return
+		}
+		h.abort(fmt.Sprintf("%s on connection c%d failed after %q: %v; the handler panicked: %s", what, c.Slot, h.log[len(h.log)-1], err, trunc(p.Text, 200)))
+		return
+	}
+	h.abort(fmt.Sprintf("%s on connection c%d failed after %q: %v", what, c.Slot, h.log[len(h.log)-1], err))
 }
 
 // subsState is a canonical description of who is subscribed to what (independent of connection numbering).
@@ -125,7 +142,7 @@ func (h *history) fenceAll(kind string, origin *mconn, changes []change, sameWri
 		m, err := c.c.Do("GET", fenceTarget, "", nil)
 		r.Count("fences", 1)
 		if err != nil {
-			h.abort(fmt.Sprintf("fence on connection c%d failed after %q: %v", c.Slot, h.log[len(h.log)-1], err))
+			h.connFailed(c, "fence", err)
 			return
 		}
 		if m.Status != 200 {
@@ -251,7 +268,7 @@ func (h *history) connect(ci int, how string) *mconn {
 func (h *history) put(c *mconn, entries []refctl.CharValue) (map[[2]uint64]int, int, bool) {
 	m, err := c.c.Do("PUT", "/characteristics", refctl.ContentJSON, refctl.PutBody(entries...))
 	if err != nil {
-		h.abort(fmt.Sprintf("PUT on connection c%d failed after %q: %v", c.Slot, h.log[len(h.log)-1], err))
+		h.connFailed(c, "PUT", err)
 		return nil, 0, false
 	}
 	st := map[[2]uint64]int{}
@@ -297,24 +314,36 @@ func (h *history) applySub(c *mconn, xi int, on bool, st map[[2]uint64]int, stat
 }
 
 func (h *history) pickChar(pred func(i int, c *chr) bool, preferSubscribed bool) int {
-	var all, pref []int
+	var all, pref, pref2 []int
 	for i, c := range h.f.chars {
 		if !pred(i, c) {
 			continue
 		}
 		all = append(all, i)
+		n := 0
 		for _, mc := range h.live() {
 			if mc.subs[i] {
-				pref = append(pref, i)
-				break
+				n++
 			}
+		}
+		if n >= 1 {
+			pref = append(pref, i)
+		}
+		if n >= 2 {
+			pref2 = append(pref2, i)
 		}
 	}
 	if len(all) == 0 {
 		return -1
 	}
-	if preferSubscribed && len(pref) > 0 && h.rnd.Intn(100) < 75 {
-		return pref[h.rnd.Intn(len(pref))]
+	if preferSubscribed {
+		p := h.rnd.Intn(100)
+		if len(pref2) > 0 && p < 45 {
+			return pref2[h.rnd.Intn(len(pref2))]
+		}
+		if len(pref) > 0 && p < 80 {
+			return pref[h.rnd.Intn(len(pref))]
+		}
 	}
 	return all[h.rnd.Intn(len(all))]
 }
@@ -442,13 +471,50 @@ func (h *history) step(maxConns int) {
 		} else {
 			xi = h.pickOne(func(i int, x *chr) bool { return c.subs[i] }, func(i int, x *chr) bool { return x.Ev })
 		}
-		x := h.f.chars[xi]
-		h.logf("%s: c%d PUT %s ev:%v%s", kind, c.Slot, x.Key, on, note(c.subs[xi], on))
-		st, code, ok := h.put(c, []refctl.CharValue{{AID: x.AID, IID: x.IID, Ev: bptr(on)}})
+		xs := []int{xi}
+		if on {
+			// often subscribe to what other connections are subscribed to as well; sometimes several entries in one PUT
+			var shared []int
+			for i, x := range h.f.chars {
+				if !x.Ev || c.subs[i] {
+					continue
+				}
+				for _, o := range lv {
+					if o != c && o.subs[i] {
+						shared = append(shared, i)
+						break
+					}
+				}
+			}
+			if len(shared) > 0 && h.rnd.Intn(100) < 60 {
+				xs[0] = shared[h.rnd.Intn(len(shared))]
+			}
+			for k := h.rnd.Intn(3); k > 0 && h.rnd.Intn(100) < 50; k-- {
+				y := h.pickOne(func(i int, x *chr) bool { return x.Ev && !c.subs[i] }, func(i int, x *chr) bool { return x.Ev })
+				dup := false
+				for _, z := range xs {
+					dup = dup || z == y
+				}
+				if !dup {
+					xs = append(xs, y)
+				}
+			}
+		}
+		var entries []refctl.CharValue
+		var names []string
+		for _, xi := range xs {
+			x := h.f.chars[xi]
+			entries = append(entries, refctl.CharValue{AID: x.AID, IID: x.IID, Ev: bptr(on)})
+			names = append(names, x.Key+note(c.subs[xi], on))
+		}
+		h.logf("%s: c%d PUT ev:%v for [%s]", kind, c.Slot, on, strings.Join(names, "; "))
+		st, code, ok := h.put(c, entries)
 		if !ok {
 			return
 		}
-		h.applySub(c, xi, on, st, code)
+		for _, xi := range xs {
+			h.applySub(c, xi, on, st, code)
+		}
 		h.fenceAll(kind, c, nil, nil)
 	case "subscribe_no_ev":
 		c := anyConn()
@@ -471,7 +537,13 @@ func (h *history) step(maxConns int) {
 		}
 		h.logf("%s: application sets %s from %s to %s", kind, x.Key, showVal(x.cur), showVal(v))
 		if p, txt := vf.Recover(func() { x.set(v) }); p {
-			h.r.Violation("local-set:panic:"+vf.PanicSite(txt, "brutella/hc"), "SetValue panicked: "+trunc(txt, 600), h.witness(nil))
+			sig, in := notifySig(txt)
+			what := "SetValue panicked: " + trunc(txt, 300)
+			if in {
+				what = notifyPanicWhat
+			}
+			h.r.Violation(sig, what, h.witness(map[string]interface{}{"where": "SetValue called by the application", "stack": trunc(txt, 2500)}))
+			h.violated = true
 			h.abort("SetValue panicked")
 			return
 		}
@@ -718,7 +790,9 @@ func runHistory(r *vf.Run, n int, ops int) []string {
 	}
 	if h.aborted != "" {
 		r.Count("histories_aborted", 1)
-		r.Inconclusive(fmt.Sprintf("history %d aborted: %s", n, h.aborted))
+		if !h.violated {
+			r.Inconclusive(fmt.Sprintf("history %d aborted: %s", n, h.aborted))
+		}
 	} else {
 		r.Count("histories_completed", 1)
 	}
